@@ -654,6 +654,8 @@ func workload(c *rt.Ctx) []Case {
 	pkn = append(pkn, fkPairingCases()...)
 	pkn = append(pkn, nullDefaultCases()...)
 	pkn = append(pkn, notNullSameDefaultCases(pool)...)
+	pkn = append(pkn, genParamTypeCases()...)
+	pkn = append(pkn, uniqueConstraintCases()...)
 	for _, cs := range pkn {
 		add(cs)
 	}
@@ -697,7 +699,7 @@ func workload(c *rt.Ctx) []Case {
 			k++
 		}
 		for i, cs := range pkn {
-			if i%6 == 0 || (cs.Src == "fk-pairing" || cs.Src == "null-default" || cs.Src == "notnull-same-default") && i%3 == 0 {
+			if i%6 == 0 || (cs.Src == "fk-pairing" || cs.Src == "null-default" || cs.Src == "notnull-same-default" || cs.Src == "gen-param-type" || cs.Src == "unique-constraint") && i%3 == 0 {
 				cs.CLI = true
 				cs.Name = "cli:" + cs.Name
 				add(cs)
@@ -1021,6 +1023,88 @@ func notNullSameDefaultCases(pool []sqlm.PoolEntry) []Case {
 			}
 			out = append(out, Case{Pair: sqlm.Pair{A: pe.S, B: b, Mode: modes[n%len(modes)], Rows: 4}, Name: fmt.Sprintf("notnull-same-default:%s/%s", pe.Name, e), Src: "notnull-same-default", Edits: []string{e.Kind}})
 			n++
+		}
+	}
+	return out
+}
+
+// genParamTypeCases: GENERATED columns (STORED and VIRTUAL) whose type carries parameters —
+// decimal(10,5), varchar(100), nchar(55) — created with the table, added by ALTER TABLE (VIRTUAL) and by a
+// rebuild (STORED), and present while the table is rebuilt for another reason. The database is created
+// by Atlas (in hand-written DDL a comma between the column name and AS is outside what Atlas's inspector
+// documents). After a successful apply the next inspection must work: an inspection / plan ERROR on the
+// second plan is a violation (atom second-plan-error).
+func genParamTypeCases() []Case {
+	n := func(name, typ string) sqlm.Col { return sqlm.Col{Name: name, Type: typ, Null: true} }
+	g := func(name, typ, expr string, stored bool, refs ...string) sqlm.Col {
+		return sqlm.Col{Name: name, Type: typ, Null: true, Gen: &sqlm.Gen{Expr: expr, Stored: stored, Refs: refs}}
+	}
+	base := sqlm.Table{Name: "gp", Cols: []sqlm.Col{{Name: "id", Type: "integer"}, n("price", "decimal(10,5)"), n("qty", "integer"), n("label", "varchar(100)")}, PK: []string{"id"}}
+	full := base.Clone()
+	full.Cols = append(full.Cols, g("total", "decimal(10,5)", "price * qty", true, "price", "qty"), g("total_v", "decimal(10,5)", "price * 2", false, "price"),
+		g("short", "varchar(100)", "substr(label, 1, 3)", false, "label"), g("code", "nchar(55)", "upper(label)", true, "label"))
+	S := func(t sqlm.Table) sqlm.Schema { return sqlm.Schema{Tables: []sqlm.Table{t}} }
+	var out []Case
+	add := func(name string, a *sqlm.Table, b sqlm.Table, rows int) {
+		p := sqlm.Pair{B: S(b), Mode: "atlas", Rows: rows}
+		if a != nil {
+			p.A = S(*a)
+		}
+		out = append(out, Case{Pair: p, Name: "gen-param-type:" + name, Src: "gen-param-type", Edits: []string{"col.add.gen-param-type"}})
+	}
+	add("create", nil, full, 0)
+	for k := 4; k < len(full.Cols); k++ {
+		one := base.Clone()
+		one.Cols = append(one.Cols, full.Cols[k])
+		add("create "+full.Cols[k].Name, nil, one, 0)
+		add("add "+full.Cols[k].Name, &base, one, 0)
+		add("add "+full.Cols[k].Name+" (populated)", &base, one, 3)
+		chk := one.Clone()
+		chk.Checks = []sqlm.Check{{Name: "gp_idck", Expr: "id > 0", Refs: []string{"id"}}}
+		add("rebuild with "+full.Cols[k].Name, &one, chk, 3)
+	}
+	add("drop all generated", &full, base, 3)
+	return out
+}
+
+// uniqueConstraintCases: the current database was written by hand with a UNIQUE column / table
+// constraint (SQLite creates sqlite_autoindex_<t>_<n>); the desired schema holds, on the same columns,
+// a NON-unique index under the name Atlas gives such a constraint (<table>_<cols>), a non-unique or
+// unique index under another name, the unique index under the normalized name (nothing to do), or no
+// index. Judged by pragma_index_list facts (unique flag, origin), in every raw style.
+func uniqueConstraintCases() []Case {
+	n := func(name, typ string) sqlm.Col { return sqlm.Col{Name: name, Type: typ, Null: true} }
+	mk := func(idx ...sqlm.Idx) sqlm.Schema {
+		return sqlm.Schema{Tables: []sqlm.Table{{Name: "uq", Cols: []sqlm.Col{{Name: "id", Type: "integer"}, n("email", "text"), n("org", "integer"), n("code", "text")}, PK: []string{"id"}, Idx: idx}}}
+	}
+	p := func(cols ...string) []sqlm.Part {
+		var out []sqlm.Part
+		for _, c := range cols {
+			out = append(out, sqlm.Part{Col: c})
+		}
+		return out
+	}
+	cur := mk(sqlm.Idx{Name: "uq_email", Unique: true, Parts: p("email"), Inline: true}, sqlm.Idx{Name: "uq_org_code", Unique: true, Parts: p("org", "code"), Inline: true})
+	desired := []struct {
+		name string
+		s    sqlm.Schema
+	}{
+		{"same (unique, normalized names)", mk(sqlm.Idx{Name: "uq_email", Unique: true, Parts: p("email")}, sqlm.Idx{Name: "uq_org_code", Unique: true, Parts: p("org", "code")})},
+		{"non-unique under the normalized name (single)", mk(sqlm.Idx{Name: "uq_email", Parts: p("email")}, sqlm.Idx{Name: "uq_org_code", Unique: true, Parts: p("org", "code")})},
+		{"non-unique under the normalized name (composite)", mk(sqlm.Idx{Name: "uq_email", Unique: true, Parts: p("email")}, sqlm.Idx{Name: "uq_org_code", Parts: p("org", "code")})},
+		{"non-unique under the normalized names (both)", mk(sqlm.Idx{Name: "uq_email", Parts: p("email")}, sqlm.Idx{Name: "uq_org_code", Parts: p("org", "code")})},
+		{"non-unique, other name", mk(sqlm.Idx{Name: "uq_mail_ix", Parts: p("email")}, sqlm.Idx{Name: "uq_org_code", Unique: true, Parts: p("org", "code")})},
+		{"unique, other name", mk(sqlm.Idx{Name: "uq_mail_ux", Unique: true, Parts: p("email")}, sqlm.Idx{Name: "uq_org_code", Unique: true, Parts: p("org", "code")})},
+		{"normalized name, other column order", mk(sqlm.Idx{Name: "uq_email", Unique: true, Parts: p("email")}, sqlm.Idx{Name: "uq_org_code", Parts: p("code", "org")})},
+		{"constraints dropped", mk()},
+	}
+	var out []Case
+	for _, d := range desired {
+		if err := d.s.Validate(); err != nil {
+			panic("c01 uniqueConstraintCases: " + err.Error())
+		}
+		for _, st := range sqlm.Styles {
+			out = append(out, Case{Pair: sqlm.Pair{A: cur, B: d.s, Mode: st.Name}, Name: "unique-constraint:" + d.name + "/" + st.Name, Src: "unique-constraint", Edits: []string{"idx.unique-constraint"}})
 		}
 	}
 	return out
